@@ -38,23 +38,35 @@ def spec_round_keys_des(chk, keys):
     return [{'first': beh[i + 1]['rk'][0][0], 'last': beh[i + 1]['rk'][0][15]} for i in range(len(keys))]
 
 
-def simulate(chk, module, fn, inputs, kw, words, guesses, model, symmetric, seed, label):
-    c = {'fn': fn, 'inputs': inputs, 'kw': kw, 'words': [w + 1 for w in words], 'guesses': guesses, 'model': model, 'nsamples': len(words) + 2, 'seed': seed, 'symmetric': symmetric}
-    path = dh.write_json(c)
+def config(fn, inputs, kw, words, guesses, model, symmetric, seed):
+    return {'fn': fn, 'inputs': inputs, 'kw': kw, 'words': [w + 1 for w in words], 'guesses': guesses, 'model': model, 'nsamples': len(words) + 2, 'seed': seed, 'symmetric': symmetric}
+
+
+def simulate_all(chk, module, configs, label):
+    """one TLC run for all configurations of a cipher; returns per configuration the trace matrix, or None when the specification
+    finds the true key not identifiable on that input set (symmetric combination: the statement does not apply)"""
+    path = dh.write_json(configs)
     try:
-        r = tlc.run(module, cfg_text=tlc.cfg(invariants=['Identifiable', 'Emit']), env={'CASES': path}, workers=2, timeout=1200, heap='6g', allow_violation=True)
+        r = tlc.run(module, cfg_text=tlc.cfg(invariants=['Emit']), env={'CASES': path}, workers=8, timeout=3000, heap='8g')
     finally:
         os.unlink(path)
     chk.add_tlc(label, r)
-    if r.violated:
-        return None           # not identifiable on this set: the statement does not apply (symmetric combination)
-    em = {e['j'] - 1: e for e in r.emits()}
-    n = len(inputs)
-    noise = np.array(em[0]['noise'], dtype='int16')
-    traces = noise.copy()
-    for j in range(len(words)):
-        traces[:, j] += 4 * np.array(em[j]['leak'], dtype='int16')
-    return traces
+    by = {}
+    for e in r.emits():
+        by.setdefault(e['ci'] - 1, {})[e['j'] - 1] = e
+    out = []
+    for ci, c in enumerate(configs):
+        em = by.get(ci, {})
+        if len(em) != len(c['words']):
+            raise tlc.TLCError(f'{module}: configuration {ci} emitted {len(em)} of {len(c["words"])} words')
+        if not all(em[j]['identifiable'] for j in em):
+            out.append(None)
+            continue
+        traces = np.array(em[0]['noise'], dtype='int16').copy()
+        for j in range(len(c['words'])):
+            traces[:, j] += 4 * np.array(em[j]['leak'], dtype='int16')
+        out.append(traces)
+    return out
 
 
 def attack_once(cipher, fn, attack, key, meta_in, traces, guesses, words, bs, kw_words):
@@ -119,6 +131,7 @@ def run(chk):
         afns = [('FirstSubBytes', ['CPA', 'DPA', 'ANOVA', 'NICV', 'SNR', 'MIA', 'TPL']), ('LastSubBytes', ['CPA', 'DPA', 'SNR', 'TPL'] if q else ['CPA', 'DPA', 'ANOVA', 'NICV', 'SNR', 'MIA', 'TPL']),
                 ('DeltaRLastRounds', ['CPA', 'ANOVA'] if q else ['CPA', 'DPA', 'ANOVA', 'NICV', 'SNR', 'MIA']), ('FirstAddRoundKey', ['CPA']), ('LastAddRoundKey', ['CPA'])]
         run_i = 0
+        aplan, dplan = [], []
         for ki, key in enumerate(akeys):
             cts = scared.aes.encrypt(np.array(pts, dtype='uint8'), np.array(key, dtype='uint8')).tolist()
             for fn, attacks in afns:
@@ -134,14 +147,14 @@ def run(chk):
                 for attack in attacks:
                     model = 'bit0' if attack == 'DPA' else 'hw'
                     symmetric = not (attack == 'CPA' and 'AddRoundKey' in fn)
-                    traces = simulate(chk, 'PipelineAES', fn, inputs, kwv, words, guesses, model, symmetric, chk.seed % 1000 + run_i, f'MC+GEN:AES {fn}/{attack} key {ki}')
                     run_i += 1
-                    if traces is None:
-                        skipped += 1
-                        continue
-                    bs = [N, (N + 2) // 3, 7][run_i % 3]
-                    a, sfw, scores, wl = attack_once('aes', fn, attack, key, inputs, traces, guesses, words, bs, kwv)
-                    judge(chk, 'aes', fn, attack, key, sfw, scores, wl, guesses, kwv, bs, words)
+                    aplan.append((config(fn, inputs, kwv, words, guesses, model, symmetric, chk.seed % 1000 + run_i), fn, attack, key, inputs, guesses, words, [N, (N + 2) // 3, 7][run_i % 3], kwv))
+        for traces, (cfg_, fn, attack, key, inputs, guesses, words, bs, kwv) in zip(simulate_all(chk, 'PipelineAES', [p[0] for p in aplan], f'MC+GEN:AES simulated leakage ({len(aplan)} configurations)'), aplan):
+            if traces is None:
+                skipped += 1
+                continue
+            a, sfw, scores, wl = attack_once('aes', fn, attack, key, inputs, traces, guesses, words, bs, kwv)
+            judge(chk, 'aes', fn, attack, key, sfw, scores, wl, guesses, kwv, bs, words)
         # ---------------- DES
         dkeys = [[rng.randint(0, 255) for _ in range(8)] for _ in range(1 if q else 3)]
         drk = spec_round_keys_des(chk, dkeys)
@@ -159,14 +172,14 @@ def run(chk):
                 inputs = dcts if last else dpts
                 for attack in attacks:
                     model = 'bit0' if attack == 'DPA' else 'hw'
-                    traces = simulate(chk, 'PipelineDES', fn, inputs, kwv, words, guesses, model, True, chk.seed % 1000 + run_i, f'MC+GEN:DES {fn}/{attack} key {ki}')
                     run_i += 1
-                    if traces is None:
-                        skipped += 1
-                        continue
-                    bs = [ND, (ND + 2) // 3, 7][run_i % 3]
-                    a, sfw, scores, wl = attack_once('des', fn, attack, key, inputs, traces, guesses, words, bs, kwv)
-                    judge(chk, 'des', fn, attack, key, sfw, scores, wl, guesses, kwv, bs, words)
+                    dplan.append((config(fn, inputs, kwv, words, guesses, model, True, chk.seed % 1000 + run_i), fn, attack, key, inputs, guesses, words, [ND, (ND + 2) // 3, 50][run_i % 3], kwv))
+        for traces, (cfg_, fn, attack, key, inputs, guesses, words, bs, kwv) in zip(simulate_all(chk, 'PipelineDES', [p[0] for p in dplan], f'MC+GEN:DES simulated leakage ({len(dplan)} configurations)'), dplan):
+            if traces is None:
+                skipped += 1
+                continue
+            a, sfw, scores, wl = attack_once('des', fn, attack, key, inputs, traces, guesses, words, bs, kwv)
+            judge(chk, 'des', fn, attack, key, sfw, scores, wl, guesses, kwv, bs, words)
         chk.extra['non_identifiable_combinations_skipped'] = skipped
     finally:
         scared.Container._BATCH_SIZE = old
